@@ -163,4 +163,4 @@ def _dur_plus_tp_cases():
 
 
 from . import REGISTRY  # noqa
-REGISTRY["data:Duration.__add__"].cases += _dur_plus_tp_cases()
+REGISTRY["data:Duration.__add__"].cases = list(REGISTRY["data:Duration.__add__"].cases) + _dur_plus_tp_cases()
